@@ -47,7 +47,7 @@ class Target:
 
     def __init__(self, id, func, setup, ensures=(), raises=(), exc_ensures=(), overrides=None, field_types=None,
                  loops=None, unroll=None, classify=None, replay=None, timeout=600, prop=None, note="",
-                 max_paths=20000, bounded=None, oblig_timeout_ms=10000, exit_hook=None, cut_at=None, start_at=None, field_invs=None):
+                 max_paths=20000, bounded=None, oblig_timeout_ms=10000, exit_hook=None, cut_at=None, start_at=None, field_invs=None, feas_timeout_ms=3000):
         self.id = id
         self.func = func
         self.setup = setup
@@ -70,6 +70,7 @@ class Target:
         self.cut_at = cut_at
         self.start_at = start_at
         self.field_invs = field_invs or {}
+        self.feas_timeout_ms = feas_timeout_ms
 
     def replay_refuted(self, I, env, obs, outcome):
         """native replay of the first refuted obligation of this path that has a model"""
@@ -125,7 +126,7 @@ class Target:
 
         def run_path(ctx):
             I = Interp(ctx, overrides=self.overrides, field_types=self.field_types, loops=self.loops, unroll=self.unroll, field_invs=self.field_invs)
-            I.cut_at = self.cut_at
+            I.cut_at = self.cut_at if self.start_at is None else None
             try:
                 env = self.setup(I)
                 ctx.path_info = {"kinds": {k: v.kind for k, v in env.items() if isinstance(v, V)}}
@@ -134,15 +135,15 @@ class Target:
                 args = env.get("args", [])
                 kwargs = env.get("kwargs", {})
                 try:
-                    if self.start_at is not None:
-                        result = I.run_function_from(live, self.start_at, env["locals"])
-                    else:
-                        try:
+                    try:
+                        if self.start_at is not None:
+                            result = I.run_function_from(live, self.start_at, env["locals"], stop_at=self.cut_at)
+                        else:
                             result = I.call_function(live, args, kwargs)
-                        except CutReached as cr:
-                            result = NONE
-                            env["__cut"] = True
-                            env["__locals"] = cr.frame.locals
+                    except CutReached as cr:
+                        result = NONE
+                        env["__cut"] = True
+                        env["__locals"] = cr.frame.locals
                 except PyExc as e:
                     if not ctx.is_sat():
                         raise Infeasible()
@@ -175,7 +176,7 @@ class Target:
                     entered[k] = entered.get(k, 0) + v
                 used_loops.update(I.used_loops)
 
-        ex = Explorer(run_path, max_paths=self.max_paths, oblig_timeout_ms=self.oblig_timeout_ms)
+        ex = Explorer(run_path, max_paths=self.max_paths, oblig_timeout_ms=self.oblig_timeout_ms, feas_timeout_ms=self.feas_timeout_ms)
 
         def on_alarm(signum, frame):
             raise TimeoutError()
